@@ -28,12 +28,15 @@ CFG = dict(
     rule="n=4 and n=7 REAL controllers (real BLS) under a seeded adversarial scheduler: in-order / reordered / dropped / duplicated deliveries, bursts, timeouts, up to f "
          "Byzantine operators (equivocating proposals per recipient incl. justified ones for later rounds, prepares/commits for arbitrary roots to subsets, round-changes "
          "with real prepare justifications, decided certificates aggregated from collected real commits and delivered to operators that already timed out, re-signed "
-         "mutations of everything seen), with and without the runner's real compaction; in 60 % of the schedules every correct operator also runs a real controller "
+         "mutations of everything seen), with and without the runner's real compaction (30 % of the compacting schedules use the policy `decided-only`: instance.Compact when an "
+         "operator's instance becomes decided and after decided certificates, NOT after round-changes — with the full runner policy a decided instance's round-change container is "
+         "emptied after every round-change and it never joins a partial quorum; agreement violations attributed to compaction carry the MECHANISM in their signature, "
+         "`:second-proposal-accepted-for-a-round` = the known finding, anything else `:other-history` and is reported); in 60 % of the schedules every correct operator also runs a real controller "
          "for a SECOND duty role (other identifier, same height) whose round-changes/prepares the Byzantine operators embed as justifications (round-change quorums of later "
          "rounds, locks backed only by the other role's prepares) or send directly; the Byzantine operators also justify proposals with round-change sets of OTHER (older / newer / "
          "mixed) rounds, embed round-changes / prepares with INVALID signatures in the name of signers whose genuine message of that round the victim already holds (and the converse), "
          "and push collected commits towards a decision; in 40 % of the schedules a correct operator's own Broadcast fails (2 % of its ops, error AFTER or BEFORE the message left, at "
-         "whatever broadcast site the op reaches — modelled by Ssv/Model/Qbft/Faulty.lean, `nf=a|b` on the op line); 8 directed scenarios first (incl. the cross-role replay repaired by "
+         "whatever broadcast site the op reaches — modelled by Ssv/Model/Qbft/Faulty.lean, `nf=a|b` on the op line); 10 directed scenarios first (incl. the cross-role replay repaired by "
          "e1612ceed, stale-round justification, forged round-change of a known signer, commit-broadcast fault then unlocked round-change); every correct operator's exact input sequence and "
          "outputs form a `reset` case that is diffed against the Lean model",
     trusted_base=["harness abstraction + scheduler (harness/cmd/qbft/simsearch.go, directed.go)", "BLS / SHA-256 abstracted"],
